@@ -203,7 +203,7 @@ func init() {
 				maxVal = int(c.BodyMax)
 			}
 			cs := limitServed([]StoreCfg{c}, 1, seed+uint64(i))
-			jobs = append(jobs, Job{Variant: "plain", Mode: "db.gc", Args: js(map[string]interface{}{"Cfg": cs[0], "Histories": hist, "NOps": ops, "NKeys": r.Range(4, 10), "MaxVal": maxVal, "BigPct": 0, "MaintPct": 22, "Restart": true, "GC": true, "GCMonitor": true, "Prop": prop})})
+			jobs = append(jobs, Job{Variant: "plain", Mode: "db.gc", Args: js(map[string]interface{}{"Cfg": cs[0], "Histories": hist, "NOps": ops, "NKeys": r.Range(4, 10), "MaxVal": maxVal, "BigPct": 0, "MaintPct": 22, "Restart": true, "GC": true, "GCMonitor": true, "Prop": prop, "Damage": i%2 == 1})})
 		}
 		return jobs
 	}
